@@ -135,6 +135,18 @@ def gen(rng, tier, info):
         t = rand_table(rng)
         t["W"] = rng.randint(4, 40)
         cases.append(t)
+    # histories on one Table object: rendered before at another indentation / on another width, then judged as any other table
+    n_pre = 0
+    for _ in range({"quick": 600, "thorough": 6000, "search": 150}[tier]):
+        t = rand_table(rng)
+        if rng.random() < 0.5:
+            t["W"] = rng.randint(12, 60)
+        how = rng.randint(0, 2)
+        t["pre"] = [t["W"] if how != 1 else rng.randint(10, 200), rng.randint(0, 12) if how != 2 else t["ind"]]
+        if t["pre"] == [t["W"], t["ind"]]:
+            t["pre"][1] = t["ind"] + 5
+        cases.append(t)
+        n_pre += 1
     n_tab = len(cases)
     cases.extend(fixed_tagged_tables())
     for i in range({"quick": 1500, "thorough": 15000, "search": 300}[tier]):
@@ -150,7 +162,7 @@ def gen(rng, tier, info):
         t["W"] = rng.randint(60, 400)
         cases.append(t)
     info["exhaustive"] = True
-    info["distribution"] = {"fit_exhaustive": n_ex, "fit_random": n_fit - n_ex, "tables_tag_free": n_tab - n_fit, "tables_tagged": n_tag - n_tab,
+    info["distribution"] = {"fit_exhaustive": n_ex, "fit_random": n_fit - n_ex, "tables_tag_free": n_tab - n_fit, "of_them_rendered_before_with_other_geometry": n_pre, "tables_tagged": n_tag - n_tab,
                             "tables_unbalanced_markup_model_only": len(cases) - n_tag}
     return cases
 
@@ -222,7 +234,8 @@ def describe(c):
         return "CellWrapper().add_cells(%r).fit(%d, %d, PlainFormatter())" % (c["cells"], c["max"], c["n"])
     return ("Table(TableStyle.%s() with alignments %r, default %d)%s.add_rows(%r).render(io, %d) at terminal width %d, %s" % (
         c["style"], c["aligns"], c["default"], "" if c["header"] is None else ".set_header_row(%r)" % (c["header"],), c["rows"], c["ind"], c["W"],
-        ["plain", "ANSI (forced)", "AnsiFormatter() not forced, stream without ANSI"][c["ansi"]]))
+        ["plain", "ANSI (forced)", "AnsiFormatter() not forced, stream without ANSI"][c["ansi"]])
+            + (" - after the SAME Table object was rendered at terminal width %d, indentation %d" % tuple(c["pre"]) if c.get("pre") else ""))
 
 
 def enc_wrapper(w):
@@ -281,6 +294,15 @@ def run_impl(c):
     io.set_terminal_dimensions(Rectangle(c["W"], 50))
     before = (copy.deepcopy(t._rows), copy.deepcopy(t._header_row), t._nb_columns, list(st.column_alignments))
     exc = max(len(st.header_cell_format.format("")), len(st.cell_format.format("")))
+    if c.get("pre"):
+        # a HISTORY on one Table object: the same table was rendered before, on another terminal width / at another indentation
+        # (its own io); everything below - comparison with the model, every oracle clause - is about the render that follows
+        io0 = BufferedIO(formatter=[PlainFormatter, lambda: AnsiFormatter(forced=True), AnsiFormatter][c["ansi"]]())
+        io0.set_terminal_dimensions(Rectangle(c["pre"][0], 50))
+        try:
+            t.render(io0, c["pre"][1])
+        except Exception:  # noqa
+            pass
     # the wrapper is looked at on a formatter of its own (measuring cells moves the style stack when markup is unbalanced)
     io2 = BufferedIO(formatter=[PlainFormatter, lambda: AnsiFormatter(forced=True), AnsiFormatter][c["ansi"]]())
     try:
@@ -488,6 +510,8 @@ def shrink(c):
                 out.append(dict(c, cells=c["cells"][:i] + [" ".join(w[:len(w) // 2])] + c["cells"][i + 1:]))
         return out
     rows = c["rows"]
+    if c.get("pre"):
+        out.append({k: v for k, v in c.items() if k != "pre"})
     if len(rows) > 1:
         for i in range(len(rows)):
             out.append(dict(c, rows=rows[:i] + rows[i + 1:]))
